@@ -146,14 +146,34 @@ def valueV (k : VKind) (v : Bytes) : JV :=
   | .lit => .lit (if v.isEmpty then JsonDoc.sNull else v)
   | .empty => .arr [.lit JsonDoc.sNull]
 
+/-- the members of a metadata object (RFC 7952 sec. 5.2), as (name, text, value) -/
+def metaMems (metas : List JMeta) : List MemV :=
+  metas.map fun m => ⟨m.modName ++ [58] ++ m.name, printValue m.kind m.value, valueV m.kind m.value⟩
+
+/-- the metadata object as a reader reports it: one member `module:annotation` per annotation -/
+def metaObjV (metas : List JMeta) : JV := .obj ((metaMems metas).map (·.key)) ((metaMems metas).map (·.v))
+
+/-- the `@` member of a container / list entry with annotations -/
+def metaMemV (metas : List JMeta) : List MemV := if metas.isEmpty then [] else [⟨[64], metaObjText metas, metaObjV metas⟩]
+
+theorem metaMember_eq (metas : List JMeta) : metaMember metas = (metaMemV metas).map renderMem := by
+  unfold metaMember metaMemV
+  split <;> simp [renderMem]
+
+theorem metaObjText_eq (metas : List JMeta) : metaObjText metas = [123] ++ sep ((metaMems metas).map renderMem) ++ [125] := by
+  have : (metaMems metas).map renderMem = metas.map metaText := by
+    simp [metaMems, renderMem, metaText, List.append_assoc, Function.comp_def]
+  rw [this]; rfl
+
 mutual
 /-- the JSON value a data node stands for: the reader's view of the tree (`jsonView` below) -/
 def bodyV : JNode → JV
-  | .mk kind _ modName _ _ _ vkind value kids =>
+  | .mk kind _ modName _ _ metas vkind value kids =>
     match kind with
     | .leaf | .leaflist => valueV vkind value
     | .cont | .list =>
-      .obj ((membersV false (some modName) (itemsB kids)).map (·.key)) ((membersV false (some modName) (itemsB kids)).map (·.v))
+      .obj ((metaMemV metas ++ membersV false (some modName) (itemsB kids)).map (·.key))
+        ((metaMemV metas ++ membersV false (some modName) (itemsB kids)).map (·.v))
 def itemsB : List JNode → List ItemB
   | [] => []
   | n :: r => ⟨itemOf n, bodyV n⟩ :: itemsB r
@@ -173,8 +193,9 @@ def ValueOk (k : VKind) (v : Bytes) : Prop :=
 
 mutual
 def OkJ : JNode → Prop
-  | .mk kind _ modName name _ _ vkind value kids =>
-    KeyOk modName ∧ KeyOk name ∧ ((kind = .leaf ∨ kind = .leaflist) → ValueOk vkind value) ∧ OkJL kids
+  | .mk kind _ modName name _ metas vkind value kids =>
+    KeyOk modName ∧ KeyOk name ∧ ((kind = .leaf ∨ kind = .leaflist) → ValueOk vkind value) ∧ OkJL kids ∧
+      ∀ m ∈ metas, KeyOk m.modName ∧ KeyOk m.name ∧ ValueOk m.kind m.value
 def OkJL : List JNode → Prop
   | [] => True
   | n :: r => OkJ n ∧ OkJL r
@@ -248,9 +269,42 @@ theorem good_node (N : Nat) : ∀ (n : JNode), size n ≤ N → OkJ n → Good (
   | succ N ih =>
     intro n hsz hok
     obtain ⟨kind, sid, modName, name, shown, metas, vkind, value, kids⟩ := n
-    obtain ⟨hkm, hkn, hval, hkids⟩ := hok
-    have hobj : Good ([123] ++ sep (members false (some modName) (items kids)) ++ [125])
-        (.obj ((membersV false (some modName) (itemsB kids)).map (·.key)) ((membersV false (some modName) (itemsB kids)).map (·.v))) := by
+    obtain ⟨hkm, hkn, hval, hkids, hmetas⟩ := hok
+    -- the metadata object, and the `@` member
+    have hmm : (∀ m ∈ metaMemV metas, KeyOk m.key) ∧ (∀ m ∈ metaMemV metas, Good m.body m.v) := by
+      unfold metaMemV
+      split
+      · exact ⟨by simp, by simp⟩
+      · have hk : ∀ m ∈ metaMems metas, KeyOk m.key := by
+          intro m hm
+          obtain ⟨x, hx, rfl⟩ := List.mem_map.mp hm
+          obtain ⟨h1, h2, _⟩ := hmetas x hx
+          intro b hb
+          simp only [List.mem_append, List.mem_singleton] at hb
+          rcases hb with (hb | rfl) | hb
+          · exact h1 b hb
+          · decide
+          · exact h2 b hb
+        have hg : ∀ m ∈ metaMems metas, Good m.body m.v := by
+          intro m hm
+          obtain ⟨x, hx, rfl⟩ := List.mem_map.mp hm
+          exact (good_value x.kind x.value (hmetas x hx).2.2).1
+        have hgo := good_obj (metaMems metas) hk hg
+        rw [← metaObjText_eq] at hgo
+        refine ⟨?_, ?_⟩
+        · intro m hm
+          simp only [List.mem_singleton] at hm
+          subst hm
+          intro b hb
+          simp only [List.mem_singleton] at hb
+          subst hb; decide
+        · intro m hm
+          simp only [List.mem_singleton] at hm
+          subst hm
+          exact hgo
+    have hobj : Good ([123] ++ sep (metaMember metas ++ members false (some modName) (items kids)) ++ [125])
+        (.obj ((metaMemV metas ++ membersV false (some modName) (itemsB kids)).map (·.key))
+          ((metaMemV metas ++ membersV false (some modName) (itemsB kids)).map (·.v))) := by
       have hitems : ∀ x ∈ itemsB kids, ItemOk x := by
         intro x hx
         obtain ⟨k, hk, rfl⟩ := itemsB_mem kids x hx
@@ -262,11 +316,19 @@ theorem good_node (N : Nat) : ∀ (n : JNode), size n ≤ N → OkJ n → Good (
         obtain ⟨k1, k2, k3, k4, k5, k6, k7, k8, k9⟩ := k
         exact ⟨hg, hs, hokk.1, hokk.2.1⟩
       have hmo := membersV_ok false (some modName) _ (itemsB kids) (Nat.le_refl _) hitems
-      have := good_obj (membersV false (some modName) (itemsB kids)) (fun m hm => (hmo m hm).1) (fun m hm => (hmo m hm).2)
-      rw [← members_eq_render false (some modName) _ (itemsB kids) (Nat.le_refl _), itemsB_map] at this
+      have := good_obj (metaMemV metas ++ membersV false (some modName) (itemsB kids))
+        (fun m hm => by
+          rcases List.mem_append.mp hm with h | h
+          · exact hmm.1 m h
+          · exact (hmo m h).1)
+        (fun m hm => by
+          rcases List.mem_append.mp hm with h | h
+          · exact hmm.2 m h
+          · exact (hmo m h).2)
+      rw [List.map_append, ← metaMember_eq, ← members_eq_render false (some modName) _ (itemsB kids) (Nat.le_refl _), itemsB_map] at this
       exact this
-    have hst : Starts ([123] ++ sep (members false (some modName) (items kids)) ++ [125]) :=
-      ⟨123, sep (members false (some modName) (items kids)) ++ [125], by simp, by decide, by decide⟩
+    have hst : Starts ([123] ++ sep (metaMember metas ++ members false (some modName) (items kids)) ++ [125]) :=
+      ⟨123, sep (metaMember metas ++ members false (some modName) (items kids)) ++ [125], by simp, by decide, by decide⟩
     cases kind
     · simpa [body, bodyV] using good_value vkind value (hval (Or.inl rfl))
     · simpa [body, bodyV] using good_value vkind value (hval (Or.inr rfl))
